@@ -587,6 +587,7 @@ class BaseConnector:
         finally:
             self._conns.clear()
             self._acquired.clear()
+            self._acquired_per_host.clear()
             for keyed_waiters in self._waiters.values():
                 for keyed_waiter in keyed_waiters:
                     keyed_waiter.cancel()
@@ -763,6 +764,10 @@ class BaseConnector:
                 if not self._waiters.get(key, True):
                     del self._waiters[key]
 
+            if self._closed:
+                # Woken up by a release, and the connector was closed before
+                # this task got to run: close() did not see this waiter.
+                raise ClientConnectionError("Connector is closed.")
             if self._available_connections(key) > 0:
                 break
             attempts += 1
